@@ -144,25 +144,36 @@ def substArgs : List String → List Val → AList String Val → List Val
       (if a.isRequired then (AList.lookup n kw).getD a else a) :: substArgs ns as kw
   | _, as, _ => as
 
+/-- the parameters whose binding is — or evaluated to — the REQUIRED marker itself (`f.x = %gin.REQUIRED` never
+    overridden): such a binding supplies nothing -/
+def markerNames (evaluated : AList String Val) : List String :=
+  (evaluated.filter (fun kv => kv.2.isRequired)).map (·.1)
+
+def dropMarkers (evaluated : AList String Val) : AList String Val :=
+  evaluated.filter (fun kv => !kv.2.isRequired)
+
+/-- names the caller supplied itself by keyword (not as a REQUIRED marker) -/
+def kwSupplied (kwargs : AList String Val) : List String :=
+  (kwargs.filter (fun kv => !kv.2.isRequired)).map (·.1)
+
 def phaseC (c : Cfgable) (a : PhaseA) (args : List Val) (kwargs : AList String Val)
-    (evaluated : AList String Val) : Except CallErr Delivered :=
-  let missPos := a.reqNames.filter (fun n => !AList.contains n evaluated)
+    (evaluated0 : AList String Val) : Except CallErr Delivered :=
+  -- (a binding the caller overrides by keyword is dropped before it is looked at: it cannot be "the marker")
+  let marked := (markerNames evaluated0).filter (fun n => !(kwSupplied kwargs).contains n)
+  let evaluated := dropMarkers evaluated0
+  let missPos := a.reqNames.filter (fun n => !AList.contains n evaluated && !marked.contains n)
   let newArgs := substArgs a.argNames args evaluated
   let kw := popAll evaluated a.reqNames
   let missSig := c.requiredKwargs.filter (fun rk =>
-      !a.argNames.contains rk && !AList.contains rk kwargs && !AList.contains rk kw)
-  let missKw := a.callerReq.filter (fun rk => !AList.contains rk kw)
+      !a.argNames.contains rk && !AList.contains rk kwargs && !AList.contains rk kw && !marked.contains rk)
+  let missKw := a.callerReq.filter (fun rk => !AList.contains rk kw && !marked.contains rk)
   let kwargs' := popAll kwargs (a.callerReq.filter (fun rk => AList.contains rk kw))
-  let missing := missPos ++ missSig ++ missKw
+  let missing := marked ++ missPos ++ missSig ++ missKw
   if !missing.isEmpty then .error (.missingRequired (orderBySignature c.sig missing)) else
   .ok { args := newArgs, kwargs := AList.update kw kwargs' }
 
 def evalKw (ev : Val → Val) (kw : AList String Val) : AList String Val :=
   kw.map (fun kv => (kv.1, ev kv.2))
-
-/-- names the caller supplied itself by keyword (not as a REQUIRED marker) -/
-def kwSupplied (kwargs : AList String Val) : List String :=
-  (kwargs.filter (fun kv => !kv.2.isRequired)).map (·.1)
 
 /-- the bindings that are evaluated (deep-copied): a binding for a parameter the caller supplies
     by keyword is dropped first, so an overridden `@ref()` is not called -/
